@@ -53,7 +53,12 @@ Init == /\ HWMInit /\ Len(Trace) >= 1 /\ Trace[1].e = "Reset" /\ l = 1
 Reset == Ev.e = "Reset" /\ Load(Ev) /\ Proj' = Ev.proj
 
 Begin == /\ Ev.e = "Begin"
-         /\ LET c0 == IF cache # <<>> THEN cache[1] ELSE FreshCands IN Ev.props = Pick(c0)
+         \* the packer's list (from the parent state) is what the contract gives, and what the validator's possibly cached
+         \* object gives - except for the active flag of an ONLY listed node, which storage cannot change (IsLinked quirk)
+         /\ Ev.props = PackerProposers
+         /\ LET ps == Pick(IF cache # <<>> THEN cache[1] ELSE FreshCands) IN
+            /\ [i \in DOMAIN ps |-> ps[i].n] = [i \in DOMAIN Ev.props |-> Ev.props[i].n]
+            /\ (Len(alist) >= 2 => ps = Ev.props)
          \* the score the real packer put into the header: the proposers left active (PoA)
          /\ LET c0 == IF cache # <<>> THEN cache[1] ELSE FreshCands IN
             Has(Ev, "score") => Ev.score = Cardinality((ActiveOf(Pick(c0)) \cup {Ev.who}) \ ToSet(Ev.offs))
